@@ -406,7 +406,6 @@ spec fn single_key<Pk: MiniscriptKey>(d: Descriptor<Pk>) -> Option<Pk> {
         _ => None,
     }
 }
-spec fn all_minimal(ps: Seq<Push>) -> bool { forall|i: int| 0 <= i < ps.len() ==> minimal_push(#[trigger] ps[i]) }
 // helper preconditions of the legacy (scriptSig) path, derived from witness_to_scriptsig's assertions: every element of a
 // miniscript witness is at most a signature long (73 bytes) and a P2SH redeem script at most 520 bytes (Legacy context rule)
 spec fn legacy_elems_small(w: Option<Seq<Seq<u8>>>) -> bool { w matches Some(x) ==> forall|i: int| 0 <= i < x.len() ==> (#[trigger] x[i]).len() <= LEGACY_ELEM_MAX }
@@ -440,22 +439,6 @@ def std_clauses(D, mall, S="&satisfier", res="r"):
     ]
 
 
-def w2s(vf, elem_max):
-    inv = ("                forall|j: int| 0 <= j < witness@.len() - 1 ==> (#[trigger] witness@[j])@.len() <= %d,\n"
-           "                witness@.len() > 0 ==> witness@[witness@.len() - 1]@.len() <= 520,\n"
-           "                b@.len() == i, i <= witness@.len(),\n"
-           "                forall|j: int| 0 <= j < i ==> (#[trigger] b@[j]).data == witness@[j]@ && minimal_push(b@[j]),") % elem_max
-    vf.fn(UTIL, "fn:witness_to_scriptsig", props=("C01", "C11"), contract=Contract(
-        requires=["forall|j: int| 0 <= j < witness@.len() - 1 ==> (#[trigger] witness@[j])@.len() <= %d" % elem_max,
-                  "witness@.len() > 0 ==> witness@[witness@.len() - 1]@.len() <= 520"],
-        ensures=[Clause("one_push_per_element_in_order", ("C01",), "datas(r.pushes()) =~= views(witness@)"),
-                 Clause("pushes_are_minimal", ("C01",), "all_minimal(r.pushes())")]),
-        rewrites=[for_to_index_loop("for (i, wit) in", "witness", "wit", "i", True, inv, "witness.len() - i"),
-                  lit("R10", "let wit = &witness[i];", "let wit = &witness[i];\n            " + P17.FACTS),
-                  lit("R7", "script::read_scriptint(wit)", "script::read_scriptint(wit.as_slice())"),
-                  lit("R7", "<&PushBytes>::try_from(", "push_bytes_try_from("), prologue()])
-
-
 def wrappers(vf, elem_max=73):
     repo = vf.repo
     P = ("C01", "C02", "C17", "C11")
@@ -472,7 +455,7 @@ def wrappers(vf, elem_max=73):
     vf.trust("axiom_key_clone (admit)", "Clone on keys returns an equal key")
     vf.trust("precondition desc_pre (legacy_elems_small, redeem script <= 520, template_key_sizes_ok)", "helper preconditions derived from the assertions of "
              "witness_to_scriptsig and the debug_assert!s of satisfy_self")
-    w2s(vf, elem_max)
+    P17.witness_to_scriptsig_fn(vf, elem_max)
     CLONE = prologue("broadcast use axiom_key_clone;")
     W2S = sub("R7", r"witness_to_scriptsig\(&(\w+)\)", r"witness_to_scriptsig(\1.as_slice())")
     SMALL = ("proof { assert forall|j: int| 0 <= j < %(v)s@.len() implies (#[trigger] %(v)s@[j])@.len() <= LEGACY_ELEM_MAX by "
